@@ -304,6 +304,8 @@ def run(ctx):
     # what is read back is what the item API stored: the caller's vector, encoded as is, with the header derived from it
     from props import C19
     C19.r_stored_leaf(ctx)
+    # "deletion reports whether the item existed": the delete's own answer is what del_item returns on each side (R-DEL)
+    C19.r_del(ctx)
     # `item_ids()` / `n_items()` / `contains` on a reader answer from the metadata of the last build: they describe the item
     # store only as long as the staleness protocol (C06 rule set) refuses readers after any change -- re-evaluated here
     C06.rules(ctx)
